@@ -44,6 +44,8 @@ def protected(b_sa, exch, payloads, msg_id, response):
 
 
 class Puppet:
+    follow_up = None
+
     def __init__(self, h, rng):
         self.h, self.w, self.rng = h, h.w, rng
         self.kinds = {}
@@ -136,9 +138,20 @@ class Puppet:
         return tsi, tsr, v
 
     # ------------------------------------------------------------------ requests to A
-    def request_to_a(self, a_sa, b_sa):
+    def request_to_a(self, a_sa, b_sa, force=None):
         r = self.rng
         self.last_rekey = None
+        if force in ('delete-ike', 'delete-kids'):
+            # the follow-up to an answer with an unusual SPI: whatever A tracked because of it must also come out of the kernel again
+            if force == 'delete-ike' or not a_sa.child_sas:
+                payloads = [M.PayloadDELETE(M.Proposal.Protocol.IKE, [])]
+            else:
+                payloads = [M.PayloadDELETE(k.proposal.protocol_id, [k.outbound_spi]) for k in a_sa.child_sas]
+            self.count('req:follow-up %s' % force)
+            try:
+                return protected(b_sa, EX.INFORMATIONAL, payloads, a_sa.peer_msg_id, False)
+            except Exception:
+                return None
         kind = r.choice(['create-child', 'create-child', 'rekey-child', 'rekey-child', 'rekey-ike', 'delete', 'delete', 'dpd', 'garbage-exchange'])
         payloads = []
         exch = EX.CREATE_CHILD_SA
@@ -277,10 +290,18 @@ class Puppet:
                         tr = tr + [t for t in offered.transforms if t.type == M.Transform.Type.ENCR][-1:]
                     v = 'bad-sa-' + bv
                 spi_len = 8 if is_ike else 4
+                spi = None
                 if v == 'honest' and r.random() < 0.12:
                     spi_len = r.choice([0, 1, 3, 5, 8, 16] if not is_ike else [0, 4, 7, 9])      # an SPI of the wrong size in an otherwise valid answer
                     v = 'spi-len-%d' % spi_len
-                payloads.append(M.PayloadSA([M.Proposal(offered.num, offered.protocol_id, bytes(r.getrandbits(8) for _ in range(spi_len)), tr)]))
+                    self.follow_up = r.choice(['delete-ike', 'delete-kids'])
+                elif v == 'honest' and not is_ike and r.random() < 0.15:
+                    spi = bytes(offered.spi)           # the responder picks, for its own direction, the very value the initiator picked for the other
+                    v = 'spi-same-as-yours'
+                    self.follow_up = r.choice(['delete-ike', 'delete-kids'])
+                if spi is None:
+                    spi = bytes(r.getrandbits(8) for _ in range(spi_len))
+                payloads.append(M.PayloadSA([M.Proposal(offered.num, offered.protocol_id, spi, tr)]))
                 payloads.append(M.PayloadNONCE())
                 dh = next((t.id for t in tr if t.type == M.Transform.Type.DH), None)
                 if dh is not None or v == 'extra-ke':
@@ -466,7 +487,11 @@ def campaign(ctx, res, n_hist, n_msgs, oracles=None, deep=True):
                 w.net.clear()
                 waiting = int(a_sa.state) in CP.WAITING
                 t = rng.random()
-                if waiting and t < 0.75:
+                if not waiting and pup.follow_up:
+                    force, pup.follow_up = pup.follow_up, None
+                    data = pup.request_to_a(a_sa, b_sa, force=force)
+                    h._rogue_rekey = None
+                elif waiting and t < 0.75:
                     data = pup.response_to_a(a_sa, b_sa)
                 elif not waiting and t < 0.3:
                     # make A start something, then answer it
